@@ -173,3 +173,19 @@ def run(v):
         **st,
     })
     base.conclude(v, proof, reports, failures, errors)
+
+
+def replay(payload):
+    if "provenance" in payload:
+        P = PV.provenances()
+        rng = random.Random(0)
+        for k in range(200):
+            r = random.Random(rng.randrange(2 ** 60))
+            net = P[payload["provenance"]](r)
+            d = probe_additions(net, r)
+            if d:
+                print("provenance", payload["provenance"], "->", d)
+                return 1
+        print("no failure reproduced for provenance", payload["provenance"])
+        return 0
+    return HC.replay_history(PROP, hgsim, payload, COQ_IMPORT, PROJ, oracle_history)
